@@ -709,13 +709,21 @@ def queries(tier):
     summer = 1690000000.0                              # a date inside daylight saving time of the non-UTC zone
     conds = [("rfc1123", d, float(MTIME_S), "UTC") for d in (-1, 0, 1)] + [("rfc1123", 0, MTIME_S + 0.5, "UTC")]
     conds += [("rfc1123", d, float(MTIME_S), "EST5EDT") for d in (-1, 0)]
+    # modification times at the borders of the time scale (the Unix epoch itself - build systems and OSTree-style checkouts
+    # stamp files with 0 or 1 -, the 32-bit border): since seed C17-k
+    conds += [("rfc1123", 0, 0.0, "UTC"), ("rfc1123", 1, 0.0, "UTC"), ("rfc1123", -1, 1.0, "UTC"), ("rfc1123", 0, 1.0, "UTC"),
+              ("rfc1123", 0, 2.0 ** 31, "UTC"), ("rfc1123", -1, 2.0 ** 31, "UTC")]
+    if T:
+        conds += [("rfc1123", 0, 0.5, "UTC"), ("rfc1123", 0, 0.0, "EST5EDT"), ("rfc850", 0, 0.0, "UTC"), ("asctime", 0, 0.0, "UTC"),
+                  ("rfc1123", 0, 2.0 ** 32, "UTC"), ("rfc1123", 0, 253402300799.0, "UTC")]
     if T:
         conds += [("rfc1123", d, MTIME_S + 0.5, "UTC") for d in (-1, 1)] + [("rfc1123", 1, float(MTIME_S), "EST5EDT")]
         conds += [(f, d, m, "UTC") for f in ("rfc850", "asctime", "rfc1123;length") for d in (-1, 0, 1)
                   for m in (float(MTIME_S), MTIME_S + 0.5)]
         conds += [(f, d, summer, "EST5EDT") for f in ("rfc1123", "asctime") for d in (-1, 0, 1)]
     for fmt, delta, mtime, tz in conds:
-        add("cond/%s/%+d/%s/%s" % (fmt, delta, "frac" if mtime % 1 else "summer" if mtime == summer else "int", tz),
+        add("cond/%s/%+d/%s/%s" % (fmt, delta, ("frac" if mtime % 1 else "summer" if mtime == summer else "int") if mtime in (
+            float(MTIME_S), MTIME_S + 0.5, summer) else "mtime%g" % mtime, tz),
             make_cond(http_dates(int(mtime) + delta)[fmt], delta >= 0, mtime, tz),
             "static_file, If-Modified-Since = mtime%+ds in %s format (concrete), mtime %r, process time zone %s, n in [0, 12], "
             "with and without Range 'bytes=A-B' (A, B empty or one digit), %s" % (delta, fmt, mtime, tz, both),
